@@ -477,10 +477,21 @@ pub fn run_serve(r: &mut Rng, n: usize, out: &mut Out) {
             let q = query_bytes(r, &owners);
             match r.below(10) {
                 0 | 1 => {
-                    // TCP, well framed
+                    // TCP, well framed - half of the time while ANOTHER client's connection is stalled in the
+                    // middle of its message (the prefix and a few octets sent, nothing more, not closed):
+                    // clients are served independently of each other
+                    let stalled = if r.chance(1, 2) {
+                        TcpStream::connect_timeout(&server.addr, Duration::from_secs(2)).ok().map(|mut a| {
+                            let _ = a.write_all(&[0, 40, 0x12, 0x34, 0x01]);
+                            a
+                        })
+                    } else {
+                        None
+                    };
                     let mut wire = (q.len() as u16).to_be_bytes().to_vec();
                     wire.extend_from_slice(&q);
                     let resp = server.tcp_once(&wire, false);
+                    drop(stalled);
                     out.case(&["server.tcp", "auth", &zones, &c::hex(&q)], &resp.map_or("conn-failed".into(), |b| c::hex(&b)));
                 }
                 2 => {
@@ -1132,7 +1143,14 @@ pub fn run_forward(r: &mut Rng, n: usize, out: &mut Out) {
             }
             let parsed = reply.as_ref().and_then(|b| Message::from_octets(b).ok());
             match &parsed {
-                None => v.push("fail:C09:no-reply-to-a-query".into()),
+                None => {
+                    v.push("fail:C09:no-reply-to-a-query".into());
+                    if kind.starts_with("ext") {
+                        // the resolution of a forwarded question ended with neither an answer nor an error
+                        // (a panicking or stuck resolver task never produces the reply)
+                        v.push("fail:C08:resolution-ended-without-answer-or-error".into());
+                    }
+                }
                 Some(m) => {
                     if !m.header.recursion_available {
                         v.push("fail:C09:ra-iff-recursion-offered".into());
